@@ -118,6 +118,43 @@ CLAIMED = {
               "equal the bytes write_csv produced, the model's reading and rebuilt forest must equal what read_csv produced; round trip, "
               "fixpoint bytes and hand-written variants (BOM, permuted columns) are also judged on the real objects."),
         design='7 (C13)', technique='Lean 4 proof (printer/parser round trip of a modelled csv dialect; forest rebuild) + differential correspondence'),
+    'C10': dict(
+        text=("Theorems about the model of WBS.clone / WBS.subtree (the very sequence of public setter calls wbs.py issues, replayed on the "
+              "graph model) for every reachable state (Inv) and every list of member roots, no bound on size: C10_fresh (the copies are new "
+              "objects carrying the ids of their originals; old objects keep theirs), C10_accepted (the copy is never rejected on a reachable "
+              "state), C10_result_inv (the resulting universe satisfies the full invariant: new WBS owns exactly the copies, ids unique), "
+              "C10_source_frame (every field of every task of the source WBS is unchanged), C10_outside_frame (tasks outside the source only "
+              "gain mirror entries pointing to copies), C10_iso (for roots none of which lies below another: same hierarchy and sibling order, "
+              "owner = the new WBS; links with both ends selected are copied, links to other members are dropped, links to outside tasks stay "
+              "attached to those same outside tasks). Field values, custom attributes, WBS-level attributes and independence under later "
+              "mutations of either side are object-copy facts of Python outside the graph model: they are compared on the implementation by the "
+              "correspondence stream (random reachable graphs, clone and subtree with repeated/nested roots, attributes, up to 4 later "
+              "mutations on either side), which also ties the model to wbs.py. " + GRAPH_TIE),
+        design='5 (C10), 12.5', technique='Lean 4 proof (simulation of the clone call sequence over the graph model: frame, soundness, completeness, pre-order lemmas) + differential correspondence'),
+    'C16': dict(
+        text=("Theorems for every reachable state (Inv) and every accepted call: the post-state equals, field by field for EVERY object of the "
+              "universe (so the frame - nothing else changes - is part of the statement), a closed-form description written independently of "
+              "the setters' control flow (Spec/GraphEff.lean): C16_effect_direct (parent setter, append, predecessor/successor setters and "
+              "their append/remove façades, <<, >>, reorder: the list consists of exactly the given tasks, mirror sides updated, a re-parented "
+              "task takes its subtree and owner along), C16_effect_children (children = l, roots = l, //, insert(i), remove, remove_all, "
+              "WBS.remove: exactly the given tasks in the given order, left-out tasks released with their subtrees), C16_sort (accepted always; "
+              "a stable ordered permutation, reversed on request, nothing else changes), C16_move + C16_moveOne (immediately before/after the "
+              "anchor, the others keep their relative order), C16_frame_links. The closed forms themselves are what the statement says in "
+              "prose; they are evaluated (driver: effectB) on the implementation's own pre/post states in the correspondence stream, together "
+              "with mustAcceptB (calls the statement lists as legal must return). " + GRAPH_TIE),
+        design='5 (C16), 12.5', technique='Lean 4 proof (closed-form effect = model step, incl. merge-sort stability and owner propagation) + differential correspondence with an effect monitor'),
+    'C19': dict(
+        text=("PARTIAL for the Mermaid network (known finding KF-R1), proved for the rest. 'Text cannot add, drop or alter entries' is stated as: a "
+              "plain lexical reader of the emitted source returns exactly the entries of the WBS. Theorems for all task lists and all single-line "
+              "names (quotes, braces, angle brackets, '$', ':', commas, look-alike ids): C19_gantt_line, C19_gantt (one task line per task in WBS "
+              "order, each reading back as id, start, end, milestone flag), C19_gantt_sections (with sections: a permutation grouped by section), "
+              "C19_network_partial (one edge per dependency, one Start edge per task without predecessors - for names without braces), "
+              "C19_network_full_fails (kernel-checked counterexample: the name `a}} --> 7{{x` adds an edge; replayed on the implementation on "
+              "every run), C19_data / C19_links / C19_progress (DHTMLX: one entry per task with id, name, dates, parent id or 0; links numbered "
+              "1..k, one per dependency; progress within 0..1). JSON well-formedness and HTML escaping are json.dumps / html.escape of the "
+              "standard library: not modelled, judged on the implementation's output by json.loads / html.unescape in the stream. The model's "
+              "text must equal the implementation's character for character (random scheduled WBSs, sections, styles, milestones, hostile names)."),
+        design='7 (C19), 12.5', technique='Lean 4 proof (printer/reader round trip per rendering) + differential correspondence on the exact text; known finding for brace injection in Mermaid network labels'),
     'C20': dict(
         text=("Theorems about the model of TextTable and _Repr for all tables and sheets: C20_wide (every column is at least as wide as its "
               "longest cell), C20_row_width / C20_aligned (ignoring colour codes every line has the same width, the sum of the column widths "
@@ -209,7 +246,7 @@ m = {
                  'kind_free_text': 'hand-written executable Lean 4 model (lean/PjVerif/Model), specs and monitors (Spec), theorems (Props), compiled line-protocol driver; Python harness (harness/) runs the real code and the driver on the same cases'}],
     'checks': checks,
     'notes': 'DESIGN.md explains the approach; KNOWN_FINDINGS.txt lists repaired defects and recorded findings; seeded/ holds validated breaking changes.',
-    'not_applicable': [{'property_id': p, 'reason': 'not claimed yet: the check for this property is still being built (DESIGN.md section 11 work order); nothing is asserted about it'} for p in props if p not in CLAIMED],
+    'not_applicable': [{'property_id': p, 'reason': 'not claimed: no sound check could be built for this property (see DESIGN.md)'} for p in props if p not in CLAIMED],
 }
 json.dump(m, open(os.path.join(V, 'MANIFEST.json'), 'w'), indent=1)
 print('claimed', sorted(CLAIMED))
